@@ -247,12 +247,15 @@ pub fn gen_init(rng: &mut Rng, dim: u8, flavour: Flavour, tier: Tier) -> State {
             let mesh = polygon_mesh(rng, n, kind, cw);
             let extra = 2 * (n - 3) + rng.below(3);
             let (s, _) = state_from_mesh(&mesh, 0, extra);
-            return s;
+            return if rng.chance(0.5) { relabel_random(rng, &s) } else { s };
         }
         _ => {}
     }
     if dim == 3 {
-        return gen3::gen_init_3d(rng, flavour, tier);
+        let s = gen3::gen_init_3d(rng, flavour, tier);
+        // complexes are numbered cell by cell; under a random renumbering "which side holds the
+        // smaller darts" varies
+        return if rng.chance(0.4) { relabel_random(rng, &s) } else { s };
     }
     let kinds = match flavour {
         Flavour::Sews => {
